@@ -104,6 +104,15 @@ def pick(pool, i):
   raise Reject()
 
 
+def concretize(x, lo, hi):
+  """fork one path per value so that x is a plain int (needed before a value
+  crosses a C boundary such as pickle/msgpack/jax arrays)"""
+  for c in range(lo, hi + 1):
+    if x == c:
+      return c
+  raise Reject()
+
+
 def assume(c):
   if not c:
     raise IgnoreAttempt('assume')
